@@ -37,7 +37,8 @@ NoFn == [n \in {} |-> 0]
 (* reactions.  The variants differ in the stoichiometric coefficients:     *)
 (*   par   : computed from parameters (named q, named derived parameter    *)
 (*           dp, and -p) -- they change from segment to segment            *)
-(*   state : x is produced by r2 with coefficient y + 1 (state-dependent)  *)
+(*   state : x is produced by r2 with coefficient time * y + p (state- and  *)
+(*           time-dependent); d1 = x * time + q depends on time as well    *)
 (*   sur   : as par's r2, plus a two-output surrogate (one flux s1         *)
 (*           producing y, one surrogate variable s2)                       *)
 (*   lin   : state-independent rates (the exact flow is linear in time:    *)
@@ -51,7 +52,8 @@ Content(variant) ==
      pars |-> [n \in {"p", "q"} |-> M!Num(IF n = "p" THEN 7 ELSE 11)],
      der  |-> [n \in {"dp", "d1"} |->
                  IF n = "dp" THEN [fn |-> "dbl", args |-> <<"p">>]
-                             ELSE [fn |-> "add", args |-> <<"x", "q">>]],
+                 ELSE IF variant = "state" THEN [fn |-> "mad", args |-> <<"x", "time", "q">>]
+                 ELSE [fn |-> "add", args |-> <<"x", "q">>]],
      rxn  |-> [n \in {"r1", "r2"} |->
                  IF n = "r1"
                  THEN [fn   |-> IF variant = "lin" THEN "id" ELSE "mul",
@@ -61,7 +63,7 @@ Content(variant) ==
                  ELSE [fn   |-> IF variant = "lin" THEN "two" ELSE "add",
                        args |-> IF variant = "lin" THEN <<>> ELSE <<"d1", "y">>,
                        st   |-> ("y" :> IF variant = "par" THEN Calc("neg", <<"p">>) ELSE M!Num(0 - 1)) @@
-                                ("x" :> IF variant = "state" THEN Calc("inc", <<"y">>)
+                                ("x" :> IF variant = "state" THEN Calc("mad", <<"time", "y", "p">>)
                                                              ELSE Calc("id", <<"q">>))]],
      sur  |-> IF variant = "sur"
               THEN ("s" :> [fns |-> <<"add", "sub">>, args |-> <<"x", "p">>, outs |-> <<"s1", "s2">>,
